@@ -152,7 +152,9 @@ func (s *HistSpec) RunHistory(hist []Action, trace bool) HistResult {
 			out.Note = "[crash] " + msg
 		}
 	case vsched.StHorizon:
-		panic("ENGINE-ERROR: execution horizon hit in history " + fmt.Sprint(hist))
+		// a history needs a few thousand scheduling points; see explore.Sched
+		out.Violation = fmt.Sprintf("no quiescence: the broker is still running after %d scheduling points without further input (a goroutine spins, or goroutines keep waking each other)", len(res.Points))
+		out.Comp = "harness"
 	}
 	if len(res.Failures) > 0 && out.Violation == "" {
 		out.Violation = res.Failures[0]
